@@ -45,6 +45,36 @@ fn v2_decrypt(p: &V2, ct: &[u8], src: &[usize], consumer: u8, reqs: &[usize]) ->
     match r { Ok(Ok(s)) => s, Ok(Err(_)) => "ERR -".into(), Err(p) => p }
 }
 
+// ------------------------------------------------------------------ SEIPD v1
+
+fn v1_encrypt(sym: u8, key: &[u8], plain: &[u8], seed: u64, src: &[usize]) -> Result<Vec<u8>, String> {
+    guarded(|| -> Result<Vec<u8>, String> {
+        let mut e = sym_of(sym).stream_encryptor(Rng::new(seed), key, SchedReader::new(plain.to_vec(), src.to_vec())).map_err(|e| e.to_string())?;
+        let mut out = Vec::new();
+        e.read_to_end(&mut out).map_err(|e| e.to_string())?;
+        Ok(out)
+    }).and_then(|r| r)
+}
+
+/// mode: 0 = CheckFirst{max}, 1 = Streaming
+fn v1_decrypt(sym: u8, key: &[u8], mode: u8, max: usize, ct: &[u8], src: &[usize], consumer: u8, reqs: &[usize]) -> String {
+    use pgp::types::Seipdv1ReadMode;
+    let r = guarded(|| -> Result<String, String> {
+        let m = if mode == 0 { Seipdv1ReadMode::CheckFirst { max_message_size: max } } else { Seipdv1ReadMode::Streaming };
+        let mut d = sym_of(sym).stream_decryptor_protected(m, key, SchedBufReader::new(ct.to_vec(), src.to_vec())).map_err(|e| e.to_string())?;
+        let (out, res) = match consumer {
+            0 => consume_to_end(&mut d),
+            1 => consume_read(&mut d, reqs),
+            _ => consume_bufread(&mut d, reqs),
+        };
+        Ok(match res { Ok(()) => format!("OK {}", hx(&out)), Err(_) => format!("ERR {}", hx(&out)) })
+    });
+    match r { Ok(Ok(s)) => s, Ok(Err(_)) => "ERR -".into(), Err(p) => p }
+}
+
+fn key_len(sym: u8) -> usize { match sym { 1 | 3 | 4 | 7 | 11 => 16, 2 | 8 | 12 => 24, _ => 32 } }
+fn blk_len(sym: u8) -> usize { match sym { 7..=13 => 16, _ => 8 } }
+
 struct Ctx { out: Out, rng: Rng }
 
 impl Ctx {
@@ -78,6 +108,63 @@ impl Ctx {
         let mut rp = a.clone(); rp.push(hx(ct)); rp.push(nums(&src)); rp.push(consumer.to_string()); rp.push(nums(&reqs)); rp.push(hx(truth)); rp.push((tampered as u8).to_string());
         let mut args = p.args(); args.push(hx(ct));
         self.out.case("v2dec", &args, &rp, &imp, Some(pred), cls);
+    }
+
+    fn v1_case(&mut self, sym: u8, key: &[u8], mode: u8, max: usize, ct: &[u8], truth: &[u8], tampered: bool, cls: &str) {
+        let (src, consumer, reqs) = self.sched(64);
+        let imp = v1_decrypt(sym, key, mode, max, ct, &src, consumer, &reqs);
+        let over = mode == 0 && ct.len() > blk_len(sym) + 2 + max;
+        let pred = if !tampered && !over {
+            imp == format!("OK {}", hx(truth))
+        } else if mode == 0 {
+            imp == "ERR -"          // default mode: not one octet before the failure
+        } else {
+            imp.starts_with("ERR ") // streaming: never a clean end
+        };
+        let args = vec![sym.to_string(), hx(key), mode.to_string(), max.to_string(), hx(ct)];
+        let mut rp = vec!["v1dec".to_string()]; rp.extend(args.clone());
+        rp.push(nums(&src)); rp.push(consumer.to_string()); rp.push(nums(&reqs)); rp.push(hx(truth)); rp.push((tampered as u8).to_string());
+        self.out.case("v1dec", &args, &rp, &imp, Some(pred), cls);
+    }
+
+    fn v1_suite(&mut self, sym: u8, n: usize, exhaustive_flips: bool, cls: &str) {
+        let key = self.rng.bytes(key_len(sym));
+        let plain = self.rng.bytes(n);
+        let seed = self.rng.next();
+        let (src, _, _) = self.sched(64);
+        let ct = match v1_encrypt(sym, &key, &plain, seed, &src) {
+            Ok(c) => c,
+            Err(e) => { self.out.case("", &[], &["v1enc".into(), sym.to_string()], &format!("ERR {e}"), Some(false), cls); return; }
+        };
+        let big = 1usize << 30;
+        for mode in [0u8, 1] {
+            self.v1_case(sym, &key, mode, big, &ct, &plain, false, &format!("{cls}-m{mode}"));
+        }
+        // the configured limit of the default mode: exactly at, one below
+        let after_prefix = ct.len() - blk_len(sym) - 2;
+        self.v1_case(sym, &key, 0, after_prefix, &ct, &plain, false, &format!("{cls}-limit-eq"));
+        if after_prefix > 0 { self.v1_case(sym, &key, 0, after_prefix - 1, &ct, &plain, false, &format!("{cls}-limit-below")); }
+        let nbits = ct.len() * 8;
+        let flips: Vec<usize> = if exhaustive_flips { (0..nbits).collect() } else { (0..32).map(|_| self.rng.below(nbits as u64) as usize).collect() };
+        for b in flips {
+            let mut v = ct.clone(); v[b / 8] ^= 1 << (b % 8);
+            let mode = (b % 2) as u8;
+            self.v1_case(sym, &key, mode, big, &v, &plain, true, &format!("{cls}-bitflip-m{mode}"));
+        }
+        let step = if ct.len() <= 300 { 1 } else { ct.len() / 61 + 1 };
+        let mut cut = 0;
+        while cut < ct.len() {
+            let mode = (cut % 2) as u8;
+            self.v1_case(sym, &key, mode, big, &ct[..cut], &plain, true, &format!("{cls}-truncate-m{mode}"));
+            cut += if cut < 60 || ct.len() - cut < 40 { 1 } else { step };
+        }
+        for extra in [1usize, 21, 22, 23] {
+            let mut v = ct.clone(); v.extend(self.rng.bytes(extra));
+            self.v1_case(sym, &key, (extra % 2) as u8, big, &v, &plain, true, &format!("{cls}-append"));
+        }
+        // wrong key
+        let mut k2 = key.clone(); k2[0] ^= 0x10;
+        self.v1_case(sym, &k2, 0, big, &ct, &plain, true, &format!("{cls}-wrongkey"));
     }
 
     fn v2_suite(&mut self, p: &V2, n: usize, exhaustive_flips: bool, cls: &str) {
@@ -162,10 +249,31 @@ fn main() {
             let mut args = p.args(); args.push(hx(&ct));
             cx.out.case("v2dec", &args, a, &imp, Some(pred), "replay");
         }
+        if a[0] == "v1dec" {
+            let pn = |s: &str| -> Vec<usize> { if s == "_" { vec![] } else { s.split(',').map(|x| x.parse().unwrap()).collect() } };
+            let (sym, key, mode, max, ct) = (a[1].parse::<u8>().unwrap(), unhx(&a[2]), a[3].parse::<u8>().unwrap(), a[4].parse::<usize>().unwrap(), unhx(&a[5]));
+            let imp = v1_decrypt(sym, &key, mode, max, &ct, &pn(&a[6]), a[7].parse().unwrap(), &pn(&a[8]));
+            let truth = unhx(&a[9]);
+            let tampered = a[10] == "1";
+            let over = mode == 0 && ct.len() > blk_len(sym) + 2 + max;
+            let pred = if !tampered && !over { imp == format!("OK {}", hx(&truth)) } else if mode == 0 { imp == "ERR -" } else { imp.starts_with("ERR ") };
+            cx.out.case("v1dec", &a[1..6].to_vec(), a, &imp, Some(pred), "replay");
+        }
         cx.out.finish();
         return;
     }
     let thorough = cli.tier == "thorough";
+    // SEIPD v1: every cipher; lengths around 0, the 22-octet MDC hold-back and the 8192 buffer
+    let mut firstv1 = true;
+    for sym in [1u8, 2, 3, 4, 7, 8, 9, 10, 11, 12, 13] {
+        let lens: Vec<usize> = if thorough { vec![0, 1, 7, 8, 15, 16, 17, 21, 22, 23, 100, 8191 - 18, 8192 - 18, 8192, 8193, 8170 + 8192, 16384 + 5, 30000] }
+                               else { vec![0, 1, 16, 22, 23, 100, 8192 - 22 - 18, 8192, 8170 + 8192 + 1] };
+        for n in lens {
+            let exhaustive = (firstv1 || thorough) && n <= 23;
+            cx.v1_suite(sym, n, exhaustive, "v1");
+        }
+        firstv1 = false;
+    }
     // every cipher x mode pair, small chunk sizes, lengths around 0,1,2,3 chunk boundaries
     let css: &[u8] = if thorough { &[0, 1, 2, 3, 4, 6] } else { &[0, 1] };
     let mut first = true;
